@@ -13,25 +13,26 @@ Record m2 := {
   idx1 : N;                 (* idx + 1  (idx starts at 2^64-1) *)
   cur : bytes;              (* buf[idx:] — meaningful once idx1 > 0 *)
   whole : bytes;            (* buf *)
+  sfuel : nat;              (* 2 + len(buf): iteration bound handed to the string kernel model *)
   cbuf : list nat;          (* unread entries of the current index buffer *)
   rbufs : list (list nat)   (* buffers not yet received *)
 }.
 
 Definition m2_init (msg : bytes) (bufs : list (list nat)) : m2 :=
   {| tape_rev := []; tlen := 0; strs_rev := []; slen := 0; stack := [];
-     idx1 := 0; cur := []; whole := msg; cbuf := []; rbufs := bufs |}.
+     idx1 := 0; cur := []; whole := msg; sfuel := S (S (length msg)); cbuf := []; rbufs := bufs |}.
 
 Definition write_tape (m : m2) (val tag : N) : m2 :=
   {| tape_rev := mk_word tag val :: tape_rev m; tlen := tlen m + 1; strs_rev := strs_rev m; slen := slen m;
-     stack := stack m; idx1 := idx1 m; cur := cur m; whole := whole m; cbuf := cbuf m; rbufs := rbufs m |}.
+     stack := stack m; idx1 := idx1 m; cur := cur m; whole := whole m; sfuel := sfuel m; cbuf := cbuf m; rbufs := rbufs m |}.
 
 Definition write_raw2 (m : m2) (w1 w2 : N) : m2 :=
   {| tape_rev := w2 :: w1 :: tape_rev m; tlen := tlen m + 2; strs_rev := strs_rev m; slen := slen m;
-     stack := stack m; idx1 := idx1 m; cur := cur m; whole := whole m; cbuf := cbuf m; rbufs := rbufs m |}.
+     stack := stack m; idx1 := idx1 m; cur := cur m; whole := whole m; sfuel := sfuel m; cbuf := cbuf m; rbufs := rbufs m |}.
 
 Definition set_stack (m : m2) (s : list N) : m2 :=
   {| tape_rev := tape_rev m; tlen := tlen m; strs_rev := strs_rev m; slen := slen m;
-     stack := s; idx1 := idx1 m; cur := cur m; whole := whole m; cbuf := cbuf m; rbufs := rbufs m |}.
+     stack := s; idx1 := idx1 m; cur := cur m; whole := whole m; sfuel := sfuel m; cbuf := cbuf m; rbufs := rbufs m |}.
 
 Definition push_scope (m : m2) (ret : N) : m2 :=
   set_stack m ((tlen m * 4 + ret) :: stack m).
@@ -42,7 +43,7 @@ Definition annotate (m : m2) (loc val : N) : outcome m2 :=
   else
     let i := N.to_nat (tlen m - 1 - loc) in
     Ok {| tape_rev := upd_nth i (fun w => N.lor w val) (tape_rev m); tlen := tlen m; strs_rev := strs_rev m;
-          slen := slen m; stack := stack m; idx1 := idx1 m; cur := cur m; whole := whole m;
+          slen := slen m; stack := stack m; idx1 := idx1 m; cur := cur m; whole := whole m; sfuel := sfuel m;
           cbuf := cbuf m; rbufs := rbufs m |}.
 
 Inductive upd_res :=
@@ -61,7 +62,7 @@ Definition update_char (m : m2) : upd_res :=
       | [] => UCrash                                    (* buf[idx] out of range *)
       | b :: _ =>
         UChar {| tape_rev := tape_rev m; tlen := tlen m; strs_rev := strs_rev m; slen := slen m;
-                 stack := stack m; idx1 := nidx1; cur := ncur; whole := whole m; cbuf := cb; rbufs := rb |}
+                 stack := stack m; idx1 := nidx1; cur := ncur; whole := whole m; sfuel := sfuel m; cbuf := cb; rbufs := rb |}
               (b2n b)
       end in
   match cbuf m with
@@ -114,12 +115,12 @@ Inductive step_res :=
 
 (* parseString at the current position *)
 Definition do_string (copy : bool) (m : m2) (k : m2 -> step_res) : step_res :=
-  match parse_string_model (cur m) (idx1 m - 1) (peek_size m) copy (slen m) with
+  match parse_string_model (cur m) (idx1 m - 1) (peek_size m) copy (slen m) (sfuel m) with
   | Ok r =>
     let m1 := write_raw2 m (ps_word r) (ps_len r) in
     k {| tape_rev := tape_rev m1; tlen := tlen m1; strs_rev := rev (ps_app r) ++ strs_rev m1;
          slen := slen m1 + N.of_nat (length (ps_app r)); stack := stack m1; idx1 := idx1 m1;
-         cur := cur m1; whole := whole m1; cbuf := cbuf m1; rbufs := rbufs m1 |}
+         cur := cur m1; whole := whole m1; sfuel := sfuel m1; cbuf := cbuf m1; rbufs := rbufs m1 |}
   | Err => Fail
   | Crash => SCrash
   | OutOfFuel => SFuelOut
